@@ -21,16 +21,79 @@ theorem truth_ofTV (t : TV) : truth (ofTV t) = t := by
 theorem fnVal_concat (vs : List Val) : fnVal "concat" vs = concatAllVal vs := by
   simp [fnVal]
 
-theorem coreBin_not_div {op : Op} (h : coreBin op = true) : coreDiv op = false := by
+/-- operators whose value is not given by `binVal`: the divisions and the LIKE family -/
+def specialOp (op : Op) : Bool := coreDiv op || likeOp op
+
+theorem coreBin_not_div {op : Op} (h : coreBin op = true) : specialOp op = false := by
   cases op <;> simp [coreBin] at h <;> rfl
 
-theorem coreList_not_div {op : Op} (h : coreList op = true) : coreDiv op = false := by
+theorem coreList_not_div {op : Op} (h : coreList op = true) : specialOp op = false := by
   cases op <;> simp [coreList] at h <;> rfl
 
 theorem evalCore_binary (env : String → Val) (d : Dialect) (op : Op) (l r : SaExpr) (n : Option Op)
-    (esc : Option String) (ty : Ty) (h : coreDiv op = false) :
+    (esc : Option String) (ty : Ty) (h : specialOp op = false) :
     evalCore env d (.binary op l r n esc ty) = binVal op (evalCore env d l) (evalCore env d r) := by
-  cases op <;> simp [coreDiv] at h <;> rfl
+  cases op <;> simp [specialOp, coreDiv, likeOp] at h <;> rfl
+
+theorem evalCore_like (env : String → Val) (d : Dialect) (op : Op) (l r : SaExpr) (n : Option Op)
+    (esc : Option String) (ty : Ty) (h : likeOp op = true) :
+    evalCore env d (.binary op l r n esc ty) =
+      likeVal d op esc (evalCore env d l) (evalCore env d r) := by
+  cases op <;> simp [likeOp] at h <;> rfl
+
+theorem not3_not3 (t : TV) : not3 (not3 t) = t := by
+  cases t with
+  | none => rfl
+  | some b => cases b <;> rfl
+
+/-- the recorded negation of a LIKE-family operator is its three-valued negation -/
+theorem likeVal_neg (d : Dialect) (op n : Op) (esc : Option String) (a b : Val)
+    (h : likePair op n = true) :
+    truth (likeVal d n esc a b) = not3 (truth (likeVal d op esc a b)) := by
+  cases op <;> cases n <;> simp [likePair] at h <;>
+    simp [likeVal, truth_ofTV, not3_not3]
+
+theorem evalG_likeG (env : String → Val) (d : Dialect) (op : Op) (t : String) (L R : G) (a b : Val)
+    (esc : Option String) (h : likeOp op = true)
+    (hL : evalG (stdI env) L = .s a) (hR : evalG (stdI env) R = .s b) :
+    evalG (stdI env) (likeG d (likeSym d op) t (likeWrap d op L) (likeWrap d op R) esc) =
+      .s (likeVal d op esc a b) := by
+  have plain : ∀ (s : Sym), ∀ esc : Option String,
+      evalG (stdI env) (likeG d s t L R esc) =
+        (match esc with
+         | none => (stdI env).inf s (.s a) (.s b)
+         | some c => (stdI env).tern s .escape (.s a) (.s b) (.s (.str c))) := by
+    intro s esc
+    cases esc <;> simp only [likeG, evalG, hL, hR] <;> rfl
+  have low : ∀ (s : Sym), ∀ esc : Option String,
+      evalG (stdI env) (likeG d s t (lowerG L) (lowerG R) esc) =
+        (match esc with
+         | none => (stdI env).inf s (.s (fnVal "lower" [a])) (.s (fnVal "lower" [b]))
+         | some c => (stdI env).tern s .escape (.s (fnVal "lower" [a])) (.s (fnVal "lower" [b]))
+             (.s (.str c))) := by
+    intro s esc
+    cases esc <;> simp only [likeG, lowerG, evalG, hL, hR] <;> rfl
+  cases op <;> simp [likeOp] at h
+  · have hw : ∀ x, likeWrap d .like_op x = x := fun x => by simp [likeWrap]
+    rw [hw, hw, show likeSym d .like_op = .like from rfl, plain]
+    cases esc <;> rfl
+  · have hw : ∀ x, likeWrap d .not_like_op x = x := fun x => by simp [likeWrap]
+    rw [hw, hw, show likeSym d .not_like_op = .notLike from rfl, plain]
+    cases esc <;> rfl
+  · by_cases hd : d = .postgresql
+    · have hw : ∀ x, likeWrap d .ilike_op x = x := fun x => by simp [likeWrap, hd]
+      rw [hw, hw, show likeSym d .ilike_op = .ilike from by simp [likeSym, hd], plain]
+      cases esc <;> simp [likeVal, ilikeTV, hd] <;> rfl
+    · have hw : ∀ x, likeWrap d .ilike_op x = lowerG x := fun x => by simp [likeWrap, hd]
+      rw [hw, hw, show likeSym d .ilike_op = .like from by simp [likeSym, hd], low]
+      cases esc <;> simp [likeVal, ilikeTV, hd] <;> rfl
+  · by_cases hd : d = .postgresql
+    · have hw : ∀ x, likeWrap d .not_ilike_op x = x := fun x => by simp [likeWrap, hd]
+      rw [hw, hw, show likeSym d .not_ilike_op = .notIlike from by simp [likeSym, hd], plain]
+      cases esc <;> simp [likeVal, ilikeTV, hd] <;> rfl
+    · have hw : ∀ x, likeWrap d .not_ilike_op x = lowerG x := fun x => by simp [likeWrap, hd]
+      rw [hw, hw, show likeSym d .not_ilike_op = .notLike from by simp [likeSym, hd], low]
+      cases esc <;> simp [likeVal, ilikeTV, hd] <;> rfl
 
 theorem evalCore_div (env : String → Val) (d : Dialect) (op : Op) (l r : SaExpr) (n : Option Op)
     (esc : Option String) (ty : Ty) (h : coreDiv op = true) :
@@ -221,26 +284,31 @@ theorem evalG_render (env : String → Val) (d : Dialect) :
     rw [evalG_render env d e (by simpa [Core] using hc)]
     rfl
   | .binary op l r n esc ty, hc => by
-    simp only [Core, Bool.and_eq_true] at hc
-    rcases coreBinD_cases hc.1.1.1 with hop | hdiv
+    obtain ⟨hcl, hcr, hk⟩ := core_binary hc
+    rcases hk with ⟨hbd, _⟩ | ⟨hlk, _, _⟩
+    case inr =>
+      obtain ⟨t, heq⟩ := render_like d true op l r n esc ty hlk
+      rw [heq, evalCore_like env d op l r n esc ty hlk]
+      exact evalG_likeG env d op t _ _ _ _ esc hlk (evalG_render env d l hcl) (evalG_render env d r hcr)
+    rcases coreBinD_cases hbd with hop | hdiv
     · by_cases hcf : catFn d op = true
       · rw [render_catFn_bin d true op l r n esc ty hcf]
         obtain ⟨ho, _⟩ := catFn_true hcf
         subst ho
         show SV.s (fnVal "concat" ((evalG (stdI env) (render d true l)).items ++
           (evalG (stdI env) (render d true r)).items)) = _
-        rw [evalG_render env d l hc.1.2, evalG_render env d r hc.2, fnVal_concat,
+        rw [evalG_render env d l hcl, evalG_render env d r hcr, fnVal_concat,
           evalCore_binary env d .concat_op l r n esc ty rfl]
         rfl
       obtain ⟨txt, heq⟩ := render_coreBin d true op l r n esc ty hop (by simpa using hcf)
       rw [heq]
       show stdInf (symOf op) (evalG (stdI env) (render d true l)) (evalG (stdI env) (render d true r)) = _
-      rw [evalG_render env d l hc.1.2, evalG_render env d r hc.2, stdInf_core op (Or.inl hop),
+      rw [evalG_render env d l hcl, evalG_render env d r hcr, stdInf_core op (Or.inl hop),
         evalCore_binary env d op l r n esc ty (coreBin_not_div hop)]
     · rw [evalCore_div env d op l r n esc ty hdiv]
       cases op <;> simp [coreDiv] at hdiv
-      · exact evalG_truedivG env d _ _ _ _ _ _ (evalG_render env d l hc.1.2) (evalG_render env d r hc.2)
-      · exact evalG_floordivG env d _ _ _ _ _ _ (evalG_render env d l hc.1.2) (evalG_render env d r hc.2)
+      · exact evalG_truedivG env d _ _ _ _ _ _ (evalG_render env d l hcl) (evalG_render env d r hcr)
+      · exact evalG_floordivG env d _ _ _ _ _ _ (evalG_render env d l hcl) (evalG_render env d r hcr)
   | .unary op e ty, hc => by
     simp only [Core, Bool.and_eq_true] at hc
     rw [render_unary]
@@ -473,7 +541,7 @@ theorem foldVals_append (op : Op) (h : coreList op = true) (as bs : List Val)
       rw [foldl_binVal_assoc op h]
 
 /-- the operands taken over from a child that is itself a chain of `op` fold to its value -/
-theorem flattened_eval (env : String → Val) (d : Dialect) (op : Op) (hnd : coreDiv op = false) :
+theorem flattened_eval (env : String → Val) (d : Dialect) (op : Op) (hnd : specialOp op = false) :
     ∀ l : SaExpr, operatorOf l = some op →
     Core l = true → foldVals op (evalCoreList env d (flattened l)) = evalCore env d l
   | .binary op' a b n esc ty, ho, _ => by
@@ -571,8 +639,12 @@ def soundPair (op n : Op) : Prop :=
 
 /-- the negate operator recorded on a top-level binary is its true negation -/
 def negSound : SaExpr → Prop
-  | .binary op _ _ (some n) _ _ => soundPair op n ∧ soundPair n op
+  | .binary op _ _ (some n) _ _ =>
+    if likeOp op then likePair op n = true else (soundPair op n ∧ soundPair n op)
   | _ => True
+
+theorem coreBin_not_like {op : Op} (h : coreBin op = true) : likeOp op = false := by
+  cases op <;> simp [coreBin] at h <;> rfl
 
 theorem tvOf_not' (o : Option Ordering) (f g : Ordering → Bool) (h : ∀ x, g x = !f x) :
     tvOf o g = not3 (tvOf o f) := by
@@ -622,19 +694,36 @@ theorem negate_eval (env : String → Val) (d : Dialect) (e : SaExpr) (h : BoolE
     cases n with
     | none => simp [boolShape] at hsh
     | some n =>
-      cases esc with
-      | some x => simp [boolShape] at hsh
-      | none =>
-        simp only [boolShape] at hsh
-        simp only [Core, Bool.and_eq_true] at hc
-        simp only [negate, negateInBinary_core r n op hc.2]
+      obtain ⟨hcl, hcr, hk⟩ := core_binary hc
+      simp only [negate, negateInBinary_core r n op hcr]
+      simp only [boolShape, Bool.or_eq_true, Bool.and_eq_true] at hsh
+      rcases hsh with hsh | hsh
+      · have he : esc = none := by cases esc <;> simp at hsh ⊢
+        subst he
+        have hlf := coreBin_not_like hsh.1.1
+        have hlf' := coreBin_not_like hsh.1.2
+        simp only [negSound, hlf, Bool.false_eq_true, if_false] at hs
         refine ⟨?_, ?_⟩
-        · simp only [Bool.and_eq_true] at hsh
-          rw [mkBinary_eval env d l r n ty (some op) hsh.2 hc.1.2 hc.2,
-            evalCore_binary env d op l r (some n) none ty (coreBin_not_div hsh.1)]
+        · rw [mkBinary_eval env d l r n ty (some op) hsh.1.2 hcl hcr,
+            evalCore_binary env d op l r (some n) none ty (coreBin_not_div hsh.1.1)]
           exact hs.1 _ _
-        · simp only [mkBinary, negSound]
+        · simp only [mkBinary, negSound, hlf', Bool.false_eq_true, if_false]
           exact ⟨hs.2, hs.1⟩
+      · have hlo : likeOp op = true := by
+          cases op <;> cases n <;> simp [likePair] at hsh <;> rfl
+        have hln : likeOp n = true ∧ likePair n op = true := by
+          cases op <;> cases n <;> simp [likePair] at hsh <;> exact ⟨rfl, rfl⟩
+        rcases hk with ⟨hbd, _⟩ | ⟨_, cl, cr⟩
+        · rw [coreBinD_not_like hbd] at hlo; cases hlo
+        · have hbn : boolCtx n = false := like_not_boolCtx hln.1
+          rw [show mkBinary l r n ty (some op) esc = .binary n l r (some op) esc ty from by
+            simp only [mkBinary, selfGroup_closed n l cl hbn, selfGroup_closed n r cr hbn]]
+          refine ⟨?_, ?_⟩
+          · rw [evalCore_like env d n l r (some op) esc ty hln.1,
+              evalCore_like env d op l r (some n) esc ty hlo]
+            exact likeVal_neg d op n esc _ _ hsh
+          · simp only [negSound, hln.1, if_true]
+            exact hln.2
   | clist op cs gr bl ty =>
     simp only [negate]
     refine ⟨?_, trivial⟩
@@ -833,6 +922,7 @@ def noIsGen : U → Bool
   | .bin k a b =>
     !((k = .is_ || k = .isnot) && (match b with | .null => false | _ => true)) &&
       noIsGen a && noIsGen b
+  | .like _ _ a b => noIsGen a && noIsGen b
   | .not_ a => noIsGen a
   | .neg a => noIsGen a
   | .cast _ a => noIsGen a
@@ -908,7 +998,7 @@ theorem negSound_construct (x y : SaExpr) (op n : Op) (hop : coreBin op = true)
     (hna : associative op = false) (hsp : soundPair op n ∧ soundPair n op) :
     negSound (constructForOp x y op .bool (some n) none) := by
   unfold constructForOp
-  simp only [hna, Bool.false_eq_true, if_false, mkBinary, negSound]
+  simp only [hna, Bool.false_eq_true, if_false, mkBinary, negSound, coreBin_not_like hop]
   exact hsp
 
 end SaVerif.Expr
@@ -1160,11 +1250,11 @@ theorem build_str_eval (env : String → Val) (d : Dialect) : ∀ (u : U) (e : S
         subst hb
         have nx : OpndE x := by
           rcases hua with h | h
-          · exact build_str a x h ha
+          · exact (build_str a x h ha).1
           · exact (build_num a x h ha).opnd
         have ny : OpndE y := by
           rcases hub with h | h
-          · exact build_str b y h hb'
+          · exact (build_str b y h hb').1
           · exact (build_num b y h hb').opnd
         have ex : evalCore env d x = evalNumU env d a := by
           rcases hua with h | h
@@ -1225,7 +1315,7 @@ theorem build_bool_eval (env : String → Val) (d : Dialect) : ∀ (u : U) (e : 
       have nx : OpndE x := by
         rcases hna with h | h
         · exact (build_num a x h ha).opnd
-        · exact build_str a x h ha
+        · exact (build_str a x h ha).1
       have hpl : isPyLit a = false := by
         cases a <;> first | rfl | (rcases hna with h | h <;> simp [NumU, StrU] at h)
       have ex : evalCore env d x = evalNumU env d a := by
@@ -1281,7 +1371,7 @@ theorem build_bool_eval (env : String → Val) (d : Dialect) : ∀ (u : U) (e : 
           have ny : OpndE y := by
             rcases hnb with h | h
             · exact (build_num b y h hb').opnd
-            · exact build_str b y h hb'
+            · exact (build_str b y h hb').1
           have ey : evalCore env d y = evalNumU env d b := by
             rcases hnb with h | h
             · exact build_num_eval env d b y h hn3.2 hb'
@@ -1358,7 +1448,34 @@ theorem build_bool_eval (env : String → Val) (d : Dialect) : ∀ (u : U) (e : 
   | .null, _, hu, _, _ => by simp [BoolU] at hu
   | .true_, _, hu, _, _ => by simp [BoolU] at hu
   | .false_, _, hu, _, _ => by simp [BoolU] at hu
-  | .like _ _ _ _, _, hu, _, _ => by simp [BoolU] at hu
+  | .like k esc a b, e, hu, hn, hb => by
+    simp only [BoolU, Bool.and_eq_true] at hu
+    simp only [noIsGen, Bool.and_eq_true] at hn
+    simp only [build] at hb
+    cases ha : build a with
+    | none => simp [ha] at hb
+    | some x =>
+      cases hb' : build b with
+      | none => simp [ha, hb'] at hb
+      | some y =>
+        simp only [ha, hb'] at hb
+        obtain ⟨nx, cx⟩ := build_str a x hu.1 ha
+        obtain ⟨ny, cy⟩ := build_str b y hu.2 hb'
+        obtain ⟨hl, hna, n, hneg, hp⟩ := likeK_facts k
+        rw [booleanCompare_opnd_eq x y k.op _ esc ny, hneg] at hb
+        simp only [Option.some.injEq] at hb
+        subst hb
+        have hbc := like_not_boolCtx hl
+        simp only [constructForOp, hna, Bool.false_eq_true, if_false, mkBinary]
+        refine ⟨?_, ?_⟩
+        · rw [evalCore_like env d k.op _ _ (some n) esc .bool hl,
+            selfGroup_eval env d k.op x nx.core (Or.inl hbc),
+            selfGroup_eval env d k.op y ny.core (Or.inl hbc),
+            build_str_eval env d a x hu.1 hn.1 ha,
+            build_str_eval env d b y hu.2 hn.2 hb']
+          simp only [evalBoolU]
+        · simp only [negSound, hl, if_true]
+          exact hp
   | .neg _, _, hu, _, _ => by simp [BoolU] at hu
   | .between _ _ _, _, hu, _, _ => by simp [BoolU] at hu
   | .case_ _ _ _, _, hu, _, _ => by simp [BoolU] at hu
